@@ -28,8 +28,8 @@
 (* Part 2  monitor over the observable alphabet, one record per activation. *)
 (*  Sharp zone = activations none of whose keys is used by another          *)
 (*  activation running at the same time (a cancelled one in its two clean-  *)
-(*  up ticks excepted), with at most `cap` macros started since the last    *)
-(*  idle point; everything else is summarised (dused) and only the rules     *)
+(*  up ticks excepted); everything else is summarised (dused) and only the   *)
+(*  rules                                                                    *)
 (*  under "Everywhere" apply to it.  A macro started as the 5th or later     *)
 (*  since the last idle point may meet a full set of active macros: by the   *)
 (*  documented capacity it may not play at all; if it plays, then exactly.   *)
@@ -53,8 +53,9 @@
 (*      is still down (a blocked loop would leave it down until next input)  *)
 (*   V1 virtual-key items of a completed macro acted                         *)
 (*  Soft on purpose: how long a macro takes (no upper bounds except through  *)
-(*  idle), which of several modifiers goes up first, what happens to macros  *)
-(*  beyond the documented capacity except E1, whether a press cancels when   *)
+(*  idle), which of several modifiers goes up first, whether a macro beyond   *)
+(*  the documented capacity plays (if so: exactly), whether a press cancels  *)
+(*  when                                                                     *)
 (*  the trigger state is ambiguous, late unicode items of cancelled macros.  *)
 (*  Tick conventions (DESIGN App. A): an event arriving on an empty queue is *)
 (*  processed on the next tick, queued events one per tick (ql); a release-  *)
